@@ -134,6 +134,21 @@ def run(ctx):
 
     # ---- R4 every member of an input object is bound
     ctx.rule("C06.R4", "parse_json_inputs inserts every (key, value) of an input object: the insert is conditional only on the Ok of the value conversion, keyed by the member's own key", floor=1)
+    member_insert_rule(ctx, cli, "C06.R4")
+
+    # ---- R5 reserved function-object key is one literal (shared with C05.L8)
+    ctx.rule("C06.R5", "the function-object key probed by from_json and inserted by to_json is one and the same string literal", floor=3)
+    keys = []
+    for fn in ("blots_core::values::SerializableValue::from_json", "blots_core::values::SerializableValue::to_json"):
+        for n in H.walk(core.hir_fn(fn)["body"]):
+            if H.kind(n) == "Lit" and n["lk"] == "str" and n["v"].startswith("__"):
+                keys.append((H.last(fn), n["v"], H.loc(n)))
+    vals = {k for _, k, _ in keys}
+    for fn, k, loc in keys:
+        ctx.inst("C06.R5", "%s#key@%s" % (fn, loc.split(":")[-1] if False else len([1 for a in keys[:keys.index((fn, k, loc))] if a[0] == fn])), len(vals) == 1 and k == "__blots_function", "literal %r" % k, loc)
+
+
+def member_insert_rule(ctx, cli, RID):
     f = cli.hir_fn("blots::parse_json_inputs")
     loops = [n for n in H.walk(f["body"]) if H.kind(n) == "For"]
     found = False
@@ -173,10 +188,10 @@ def run(ctx):
                 key_ok = H.contains_local(n["args"][0], kname)
                 bad = [g for g in guards if g not in ("ok-of-conversion",)]
                 found = True
-                ctx.inst("C06.R4", "parse_json_inputs#object-member-insert", key_ok and not bad,
+                ctx.inst(RID, "parse_json_inputs#object-member-insert", key_ok and not bad,
                          "insert(key from %r: %s) under conditions %s" % (kname, key_ok, guards), H.loc(n))
             if k in ("Continue", "Break", "Ret") and not guards:
-                ctx.inst("C06.R4", "parse_json_inputs#loop-exit", False, "loop over object members can be left early (%s)" % k, H.loc(n))
+                ctx.inst(RID, "parse_json_inputs#loop-exit", False, "loop over object members can be left early (%s)" % k, H.loc(n))
             for v in n.values():
                 if isinstance(v, (dict, list)):
                     scan(v, guards)
@@ -185,17 +200,7 @@ def run(ctx):
         # early exits anywhere in the loop body
         exits = [H.kind(x) for x in H.walk(lp["body"]) if H.kind(x) in ("Continue", "Break", "Ret")]
         if exits:
-            ctx.inst("C06.R4", "parse_json_inputs#loop-exit", False, "loop over object members contains %s: some members can be skipped" % exits, H.loc(lp))
+            ctx.inst(RID, "parse_json_inputs#loop-exit", False, "loop over object members contains %s: some members can be skipped" % exits, H.loc(lp))
     if not found:
-        ctx.inst("C06.R4", "parse_json_inputs#object-member-insert", None, "no insert found in a loop over the object's members", H.loc(f["body"]))
+        ctx.inst(RID, "parse_json_inputs#object-member-insert", None, "no insert found in a loop over the object's members", H.loc(f["body"]))
 
-    # ---- R5 reserved function-object key is one literal (shared with C05.L8)
-    ctx.rule("C06.R5", "the function-object key probed by from_json and inserted by to_json is one and the same string literal", floor=3)
-    keys = []
-    for fn in ("blots_core::values::SerializableValue::from_json", "blots_core::values::SerializableValue::to_json"):
-        for n in H.walk(core.hir_fn(fn)["body"]):
-            if H.kind(n) == "Lit" and n["lk"] == "str" and n["v"].startswith("__"):
-                keys.append((H.last(fn), n["v"], H.loc(n)))
-    vals = {k for _, k, _ in keys}
-    for fn, k, loc in keys:
-        ctx.inst("C06.R5", "%s#key@%s" % (fn, loc.split(":")[-1] if False else len([1 for a in keys[:keys.index((fn, k, loc))] if a[0] == fn])), len(vals) == 1 and k == "__blots_function", "literal %r" % k, loc)
